@@ -515,7 +515,7 @@ func genC12(g *Gen, idx int) *Plan {
 func init() {
 	Register(&Check{ID: "C11", Level: "exploration",
 		Rule:   "raw peer runs 1-3 sleep/wake cycles (DISCONNECT(d), PINGREQ, optional CONNECT); broker publishes (QoS 0 only in two thirds of the runs, QoS 0-2 otherwise) on topics that need no registration and, in 30 % of the runs, on names without a topic id (REGISTER in one flush, PUBLISH in the next), timed inside the sleep, within +-15 ms of the wake-up and after the wake-up PINGRESP; retry delays from a few ms (a retry timer comes round inside the wake-up procedure) to longer than the sleep; in 30 % of the runs a slow broker with the client's own PINGREQ still in flight when it falls asleep; one copy per flush (PUBLISH, REGISTER, PUBREL), the broker's PUBREL owed on wake like a PUBLISH, nothing after the PINGRESP, never again after the client acknowledged; yield focus on the PINGREQ/DISCONNECT arms and snSend; non-trivial = a broker PUBLISH while the reference state is asleep",
-		Gen:    genC11, Oracle: oracleC11, Quick: 600, Thorough: 40000})
+		Gen:    genC11, Oracle: oracleC11, Quick: 1500, Thorough: 100000})
 	Register(&Check{ID: "C12", Level: "exploration",
 		Rule:   "a compliant timed peer (keep-alive 5-40 s): sends PINGREQ / PUBLISH / REGISTER / a mix within every keep-alive while active, announces sleeps of 1 s..3xKA and wakes within them, in 40 % of the runs the broker publishes to it (QoS 0, sometimes 1) less than 0.4 KA before most of its signs of life, 4-25 steps (up to 200 in the thorough tier, i.e. up to ~2 h virtual); gaps between consecutive gateway->broker writes must stay <= 1.5 x KA; non-trivial = session with an MQTT CONNECT",
 		Gen:    genC12, Oracle: oracleC12, Quick: 500, Thorough: 20000})
